@@ -66,13 +66,21 @@ def chan_seq_record(rng, sa, sb, plains):
         pkt = (A if frm == 'A' else B).encrypt(plain)
         held.append(pkt)
         ev.append({'frm': frm, 'plain': list(plain), 'now': list(bytes(pkt))})
-    for e, pkt in zip(ev, held):
+    for k, (e, pkt) in enumerate(zip(ev, held)):
         e['later'] = list(bytes(pkt))
         rcv = B if e['frm'] == 'A' else A
+        # the datagram sits in the receiver's buffer (bytes, a bytearray, a view into one) and may be delivered twice
+        # (duplicates, retransmissions): decrypting reads the buffer, it does not consume or alter it
+        buf = bytes(pkt) if k % 3 == 0 else bytearray(bytes(pkt))
+        payload = buf[64:] if k % 3 != 2 else memoryview(buf)[64:]
         try:
-            e['dec'] = list(rcv.decrypt(bytes(pkt[64:]), bytes(pkt[32:64])))
+            e['dec'] = list(bytes(rcv.decrypt(payload, bytes(buf[32:64]))))
+            e['buf_after'] = list(bytes(buf))
+            e['dec2'] = list(bytes(rcv.decrypt(payload, bytes(buf[32:64]))))
         except Exception as ex:
             e['dec'] = [-1]
+            e.setdefault('buf_after', [])
+            e.setdefault('dec2', [-2])
     return {'op': 'chan_seq', 'ida': list(ida), 'idb': list(idb), 'shared': list(shared), 'events': ev}
 
 
@@ -142,6 +150,33 @@ def generate(tier, seed, ctx):
         pub, priv = first
         rec['pubok'] = int(K.private_key_to_public_key(priv) == pub and SigningKey(priv[:32]).verify_key.encode() == pub)
         out.append(rec)
+    # "generated mnemonics are always valid" also when the entropy source is unlucky for a long while: a source that keeps returning
+    # the same bytes (a candidate that fails the seed test) for thousands of draws and then recovers
+    import os as _os
+    real = _os.urandom
+    for stuck_draws in ((3000 * 24,) if q else (3000 * 24, 10000 * 24)):
+        state = {'n': 0}
+        const = None
+        for cand in range(256):
+            ws = [K.words[cand]] * 24
+            ent = __import__('hmac').new(' '.join(ws).encode(), b'', __import__('hashlib').sha512).digest()
+            if __import__('hashlib').pbkdf2_hmac('sha512', ent, b'TON seed version', 390)[0] != 0:
+                const = cand
+                break
+
+        def stuck(n, _state=state, _c=const):
+            _state['n'] += 1
+            if _state['n'] <= stuck_draws:
+                # get_secure_random_number reads big-endian bytes and masks to 11 bits: spell the word index in the first two bytes
+                return bytes([(_c >> 8) & 0xff, _c & 0xff]) + b'\x00' * max(0, n - 2)
+            return real(n)
+        K.os.urandom = stuck
+        try:
+            w = K.mnemonic_new()
+            out.append({'op': 'mnemonic', 'n': len(w), 'inlist': int(all(x in K.words for x in w)), 'valid': int(K.mnemonic_is_valid(w)),
+                        'det': 1, 'pubok': 1, 'tags': ['after_%d_unlucky_draws' % min(state['n'], stuck_draws)]})
+        finally:
+            K.os.urandom = real
     # derivation is a function of (mnemonic, salt) whatever was derived before: histories that interleave the public
     # mnemonic_to_seed with other salts and the key helpers; ground truth from hashlib / libsodium directly
     import hashlib as _hl, hmac as _hm
